@@ -218,6 +218,8 @@ def standin(name, props=()):
 
 def elementwise(op, *operands):
     """op applied elementwise with numpy broadcasting; result is a fresh array."""
+    if not any(isinstance(o, (list, tuple, np.ndarray)) for o in operands):
+        return op(*operands)          # scalars stay scalars
     with np.errstate(all='ignore'):
         return np.array(op(*[np.asarray(o) if isinstance(o, (list, tuple)) else o for o in operands]))
 
@@ -256,3 +258,8 @@ def koyama_w(k, n, p):
     o = DiscreteKoyama.__new__(DiscreteKoyama)
     o.l, o.cos1, o.cos2 = p
     return float(o.koyama_kernel_fourier(k=np.array([float(k)]), n=int(n))[0])
+
+
+def make_qty(registry, magnitude, unit):
+    """The quantity `magnitude unit` in the given pint registry (spec language; pint itself is trusted)."""
+    return registry.Quantity(magnitude, unit)
